@@ -31,6 +31,7 @@ ASSUMPTIONS = [
     "float32 arithmetic on small integers is exact",
 ]
 ANCHORS = [
+    "ginjax.geometric.functional_geometric_image:tensor_times_gg",
     "ginjax.geometric.functional_geometric_image:get_rotated_keys",
     "ginjax.geometric.functional_geometric_image:times_group_element",
     "ginjax.geometric.geometric_image:GeometricImage.times_group_element",
@@ -231,6 +232,21 @@ def run_single(case, ctx):
             if not np.allclose(na, nb, atol=1e-4):
                 viols.append(viol(monitors.classify_action(D, shape, g, "array"), f"per-pixel Frobenius norms not preserved: {key} g={g.tolist()}"))
         viols += _mon.take()
+    # the single-tensor entry (one pixel's tensor, no spatial axes): det(g)^p g^{(x)k} T for every g
+    tt = getattr(geom, "tensor_times_gg", None)
+    if not viols and tt is not None and D > 1:
+        T = lattice(rng, (D,) * k)
+        for g in G:
+            try:
+                got = np.asarray(tt(jnp.asarray(T), p, g))
+            except Exception as e:
+                viols.append(viol("tensor-entry-exception", f"tensor_times_gg raised {type(e).__name__}: {str(e)[:200]} for k={k} p={p} g={g.tolist()}"))
+                break
+            evals += 1
+            want = ract.act(D, T.reshape((1,) * D + (D,) * k), k, p, g).reshape((D,) * k)
+            if got.shape != want.shape or err_exact(got, want) > 1e-4:
+                viols.append(viol("tensor-entry-value", f"tensor_times_gg != det(g)^p g^(x)k T for D={D} k={k} p={p} g={g.tolist()}", got=small(got), want=small(want)))
+                break
     # other representations of the same image: int32 data, a NumPy array handed over as it is, float64 data in x64 mode
     # whose values do not fit float32 - a signed permutation of the values must come back exactly, in the same dtype
     if not viols and not case.get("large") and not case.get("high"):
